@@ -204,12 +204,78 @@ def check_wiring(run, cx, cfg):
         run.fail('envelope.signal-adaptor', fn, cfg, 'impl not found')
 
 
+PEAK_KIND = {'peak': None, 'peak_from_rectifier': None, 'peak_positive_half_wave': 'positive_half_wave',
+             'peak_negative_half_wave': 'negative_half_wave', 'rms': None}
+RECT_OF = {'full_wave': 'FullWave', 'positive_half_wave': 'PositiveHalfWave', 'negative_half_wave': 'NegativeHalfWave'}
+
+
+def check_ctor_forwarders(run, cx, cfg):
+    """Every convenience constructor must hand its own attack / release arguments to Detector::new in that order, and
+    build the detector of its own kind (sibling agreement)."""
+    new = DET + '::<F, D>::new'
+    n = 0
+    for b in sorted(cx.facts.bodies_in('dasp_envelope'), key=lambda b: b['path']):
+        if b['kind'] == 'Closure' or b['path'] == new:
+            continue
+        try:
+            ps = returning(cx.paths(b['path'], stop=[new], inline=False))
+        except Exception:
+            continue
+        if not any(rp(e) == new for p in ps for _, e in call_events(p)):
+            continue
+        n += 1
+        names = {v: int(k) for k, v in (b.get('names') or {}).items() if int(k) <= b['argc']}
+        bad = None
+        if 'attack_frames' not in names or 'release_frames' not in names:
+            bad = 'constructor has no attack_frames / release_frames parameters (%s)' % sorted(names)
+        for p in ps:
+            if bad:
+                break
+            evs = [(k, e) for k, e in call_events(p) if rp(e) == new]
+            if len(evs) != 1 or p['ret'] != ('ret', evs[0][0]):
+                bad = 'must return Detector::new(..) unchanged'
+                break
+            args = evs[0][1]['args']
+            if args[1] != ('param', names['attack_frames']) or args[2] != ('param', names['release_frames']):
+                bad = 'passes (%s, %s) as (attack_frames, release_frames); expected its own attack_frames, release_frames in that order' % (short(args[1]), short(args[2]))
+                break
+            kind = PEAK_KIND.get(b.get('name'))
+            if kind is not None:
+                src = args[0]
+                made = [e for k, e in call_events(p) if ('ret', k) == src]
+                if not made or not (rp(made[0]) or '').endswith('::' + kind):
+                    bad = 'must build its detector with Peak::%s()' % kind
+        run.check(bad is None, 'envelope.ctor-forward', b['path'], cfg, bad or '', where=where(b))
+    run.floor('envelope.ctor-forward', 'convenience constructors calling Detector::new (%s)' % cfg, n, 5 if cfg != 'nostd' else 5)
+    # Peak::<kind>() constructors wrap the rectifier of their own kind
+    m = 0
+    for kind, ty in RECT_OF.items():
+        for b in cx.facts.bodies_in('dasp_envelope'):
+            if b.get('name') == kind and b['path'].startswith('dasp_envelope::detect::peak::Peak'):
+                m += 1
+                ps = returning(cx.paths(b['path'], inline=False))
+                ok = len(ps) == 1 and any(t[0] == 'agg' and t[1][1] == 'dasp_peak::' + ty for t in subterms(ps[0]['ret']))
+                run.check(ok, 'envelope.peak-kind', b['path'], cfg, 'Peak::%s() must wrap dasp_peak::%s: %s' % (kind, ty, describe_path(ps[0]) if ps else '-'), where=where(b))
+    run.floor('envelope.peak-kind', 'Peak kind constructors (%s)' % cfg, m, 3)
+    fn = 'dasp_envelope::detect::rms::<impl dasp_envelope::detect::Detect<F> for dasp_rms::Rms<F, S>>::detect'
+    body = cx.body(fn)
+    if body is None:
+        run.fail('envelope.detect-rms', fn, cfg, 'impl not found')
+    else:
+        ps = returning(cx.paths(fn, stop=['dasp_rms::Rms::<F, S>::next'], inline=False))
+        ok = False
+        if len(ps) == 1:
+            evs = call_events(ps[0])
+            ok = len(evs) == 1 and rp(evs[0][1]) == 'dasp_rms::Rms::<F, S>::next' and evs[0][1]['args'] == [('ref', (('P', ('param', 1)), ())), ('param', 2)] and ps[0]['ret'] == ('ret', evs[0][0])
+        run.check(ok, 'envelope.detect-rms', fn, cfg, 'Rms::detect must be self.next(frame): %s' % '; '.join(describe_path(p) for p in ps), where=where(body))
+
+
 def run(run, tier, loadcfg):
     run.rule_text = 'one instance per (function x rule x configuration)'
     run.explanation = __doc__
     run.assumptions = ['amplitude abstraction: conversions are the identity on the real amplitude, EQUILIBRIUM is amplitude 0, comparisons in a format agree with comparisons of amplitudes (C01/C02)',
                        'integer truncation in the round trip through the float companion is not decided']
-    for cfg in ['std-debug'] + (['nostd'] if tier == 'thorough' else []):
+    for cfg in ['std-debug'] + (['nostd', 'std-release'] if tier == 'thorough' else []):
         fx_ = loadcfg(cfg, optional=(cfg == 'nostd'))
         if fx_ is None:
             continue
@@ -217,3 +283,4 @@ def run(run, tier, loadcfg):
         check_rectifiers(run, cx, cfg)
         check_detector(run, cx, cfg)
         check_wiring(run, cx, cfg)
+        check_ctor_forwarders(run, cx, cfg)
